@@ -1370,6 +1370,14 @@ class Exec:
         if isinstance(op, (ast.Eq, ast.NotEq)):
             r = self.equal(a, b, st)
             return r if isinstance(op, ast.Eq) else z3.Not(r)
+        if getattr(self, "spec_mode", False):
+            # inside specifications an ordering against None only occurs behind a short-circuit guard (`r is None or 0 <= r`)
+            if isinstance(a, VNone) or isinstance(b, VNone):
+                return z3.BoolVal(False)
+            if isinstance(a, VOpt) and isinstance(a.val, VInt):
+                return z3.And(z3.Not(a.none), self.compare(op, a.val, b, st))
+            if isinstance(b, VOpt) and isinstance(b.val, VInt):
+                return z3.And(z3.Not(b.none), self.compare(op, a, b.val, st))
         if isinstance(a, VInt) and isinstance(b, VInt):
             x, y = a.z, b.z
             return {ast.Lt: x < y, ast.LtE: x <= y, ast.Gt: x > y, ast.GtE: x >= y}[type(op)]
@@ -1843,6 +1851,10 @@ class Exec:
             else:
                 raise Unsupported(f"missing argument {p} for {c.qualname}")
             t = (c.types.get(p) or "").replace(" ", "")
+            if isinstance(b[p], VOpt) and t in ("int", "bytes", "str"):
+                # an optional value handed to a parameter that needs the value itself
+                self.raise_if(st, b[p].none, "TypeError", f"None passed as {p}")
+                b[p] = b[p].val
             if t.startswith("list[") and isinstance(b[p], VNone):
                 b[p] = self.typed_empty({"int": "int", "bytes": "bytes", "Node": "ref", "str": "str"}[t[5:-1]])
             if t.startswith("list[") and isinstance(b[p], VList) and b[p].ek is None:
@@ -1926,6 +1938,10 @@ class Exec:
         for nm_, src_ in c.defs.items():
             post_view.store[nm_] = VFunc(ast.parse(src_.strip(), mode="eval").body, {}, nm_)
         post_view.store["result"] = res
+        for lp_ in c.loops.values():
+            for gname, gspec in lp_.ghosts.items():
+                # ghosts of the callee's loops that its postcondition mentions are existential witnesses at the call site
+                post_view.store[gname] = self.sym_of_type(gspec.type, f"{gname}!witness{_next_id()}", st)
         post_view.old = pre_view
         post_view.guards = []
         for nm, e in c.ensures.items():
